@@ -434,6 +434,11 @@ class Outcome:
         if extra_cov:
             cov.update(extra_cov)
         write_evidence(self.prop, level, cov, assumptions, len(self.violations))
+        # every open finding listed for this property is announced on every run; the ones this run actually
+        # exercised carry the witness it saw
+        for k in load_known():
+            if k["status"] == "open" and k["property"] == self.prop and k["id"] not in self.known_seen:
+                self.known_seen[k["id"]] = f"{k.get('deviation', k['id'])}: {k['what'][:200]} (listed; not exercised by this run's inputs)"
         for fid, text in sorted(self.known_seen.items()):
             print(f"KNOWN-FINDING: property={self.prop} {text}")
         for replay, text in self.violations[:20]:
